@@ -149,3 +149,42 @@ Definition M_table_map (d : wdata) (extra : list (N * N)) : tmap :=
             else ins extra (ins [(tag_glyf, w_outl d); (tag_loca, w_loca d)] m1) in
   ins ([(tag_maxp, w_maxp d); (tag_head, w_head d)]
        ++ opt_entry tag_GDEF (w_gdef d) ++ opt_entry tag_GSUB (w_gsub d) ++ opt_entry tag_GPOS (w_gpos d)) m2.
+
+(* ------------------------------------------------- observable summaries *)
+
+(* which tables Write emits: the keys of the table map, sorted *)
+Fixpoint n_insert (x : N) (l : list N) : list N :=
+  match l with
+  | [] => [x]
+  | y :: l' => if x <? y then x :: l else if x =? y then l else y :: n_insert x l'
+  end.
+Definition n_sort_dedup (l : list N) : list N := fold_right n_insert [] l.
+
+Definition wdata_of (t : tables) : wdata :=
+  mkWdata (t_cff t) 0
+    (match t_hm t with Some x => match x_widths x with Some _ => Some 0 | None => None end | None => None end)
+    (match t_cm t with Some c => Some (cm_id c) | None => None end)
+    0 0 0 0 0 0 0 (t_gdef t) (t_gsub t) (t_gpos t).
+
+Definition M_written_tags (t : tables) (extra : list N) : list N :=
+  n_sort_dedup (map fst (M_table_map (wdata_of t) (map (fun k => (k, 0)) extra))).
+
+(* the name table of a font whose strings are printable ASCII (where
+   mac.Encode is the identity and UTF-16BE puts a zero byte before each
+   character), with the language tables visited in the order given *)
+Definition printable (s : str) : bool := forallb (fun c => (32 <=? c) && (c <=? 126)) s.
+Definition utf16_ascii (s : str) : str := flat_map (fun c => [0; c]) s.
+
+Definition M_name_table_ascii (apple ms : list (N * str)) (f : font) (mday cday : str)
+    : option (list nrec * list N) :=
+  let nm := M_write_name f in
+  match n_ident_day nm with
+  | None => None
+  | Some _ =>
+    let day := if is_some (f_mtime f) then mday else cday in
+    let nt := ntable_of nm (n_ident_prefix nm ++ day) in
+    if forallb (fun p => printable (snd p)) nt then
+      let '(mac, win) := write_name_tables nt in
+      Some (M_name_encode (fun s => s) utf16_ascii apple ms 1 mac win)
+    else None
+  end.
